@@ -8,6 +8,7 @@ From Coq Require Import List String ZArith NArith Bool.
 Import ListNotations.
 From DV Require Import Model.Tree Model.Tables Model.Skeleton Model.FragSkel Model.Values Model.Link Model.Fragment Model.Decorate Model.Restore
      Proofs.LinkProofs Proofs.LinkPanic Proofs.LinkLocal Proofs.LinkOrder Proofs.FragProofs Proofs.RestoreProofs
+     Proofs.FragReach Proofs.DecReach Proofs.Pipeline Proofs.RestReach Proofs.EndToEnd
      Gen.Universe Gen.DataTbl Gen.FragTbl Gen.RestTbl Gen.DecTbl.
 Local Open Scope string_scope.
 Local Open Scope list_scope.
@@ -117,6 +118,35 @@ Theorem C03_decorate_keeps_every_comment :
   forall pos d, In (pos, d) comments -> in_decs (l_decs (link (map snd frs))) d.
 Proof. exact decorate_keeps_every_comment. Qed.
 
+(* The whole pipeline on the regenerated tables -- fragment ; link ; decorate ; restore -- for every
+   positioned go/ast tree, every comment list, every line table and every FileSet base: if no stage
+   panics, every comment of the file is among the comments of the restored file.  Nothing is
+   dropped.  The three table conditions relate the tables to each other: every child and point of
+   the fragment emitter is a child / stored point of the decorator, the decorator assigns each
+   field once, the restorer descends into every child the decorator assigned and renders every
+   point it stored.  The one hypothesis about the tree: File.Imports is an alias list -- its
+   elements are specs of the file's declarations (go/parser builds it that way; evaluated on every
+   tree of the correspondence: mismatch_alias). *)
+Theorem C03_tables_fit_together :
+  frag_dec_coherent frag_tbl dec_tbl dec_universe && tbl_wf dec_tbl && dec_rest_coherent dec_tbl rest_tbl = true.
+Proof. vm_compute. reflexivity. Qed.
+
+Theorem C03_pipeline_keeps_every_comment :
+  forall fi t coms frs err b,
+  (forall f, FragReach.desc t f -> tkind f = "File" -> imports_aliased f) ->
+  fragment frag_tbl ast_stmt_kinds ast_decl_kinds fi t coms = (frs, err) ->
+  let att := link (map snd frs) in
+  l_panic att = false ->
+  let acts := flatten rest_tbl false (fun _ => None) (decorateD dec_universe dec_tbl att t) in
+  panic (run_acts b acts) = None ->
+  forall pos d u, In (pos, d) coms -> In u (comment_uids [d]) ->
+  In u (all_uids (comments (run_acts b acts))).
+Proof.
+  intros fi t coms frs err b. pose proof C03_tables_fit_together as H.
+  apply andb_true_iff in H. destruct H as [H C3]. apply andb_true_iff in H. destruct H as [C1 C2].
+  apply (pipeline_keeps_every_comment _ _ _ _ _ _ fi t coms frs err b C1 C2 C3).
+Qed.
+
 (* The restorer's state machine renders each comment decoration exactly as often as it occurs
    in the decoration lists it is given (C04): nothing is dropped or duplicated on the way out. *)
 Theorem C03_restorer_renders_each_comment_once :
@@ -155,4 +185,6 @@ Print Assumptions C03_comments_are_attached_in_order.
 Print Assumptions C03_link_does_not_panic.
 Print Assumptions C03_sort_keeps_every_fragment.
 Print Assumptions C03_decorate_keeps_every_comment.
+Print Assumptions C03_tables_fit_together.
+Print Assumptions C03_pipeline_keeps_every_comment.
 Print Assumptions C03_restorer_renders_each_comment_once.
